@@ -13,19 +13,20 @@ import (
 )
 
 type Obligation struct {
-	Name   string
-	Func   string
-	Tags   []string
-	Hyps   []*Term
-	Goal   *Term
-	Where  string
-	Kind   string // requires, ensures, establish, preserve, assert, bounds, ownership, frame, ...
-	Result string // unsat (discharged) / sat / unknown / timeout / static-ok / static-fail
-	Solver string
-	Time   float64
-	Model  string
-	Static bool // decided syntactically
-	Detail string
+	Name      string
+	Func      string
+	Tags      []string
+	Hyps      []*Term
+	Goal      *Term
+	Where     string
+	Kind      string // requires, ensures, establish, preserve, assert, bounds, ownership, frame, ...
+	Result    string // unsat (discharged) / sat / unknown / timeout / static-ok / static-fail
+	Solver    string
+	Time      float64
+	Model     string
+	CandModel string // model of the quantifier-free relaxation (candidate counterexample)
+	Static    bool   // decided syntactically
+	Detail    string
 }
 
 type flowKind int
@@ -70,6 +71,7 @@ type Engine struct {
 	madeHere     map[string]bool
 	baseNames    map[string]Value
 	selfNames    map[string]Value
+	dynType      map[string]types.Type
 	extraStreams []*Term
 }
 
@@ -496,6 +498,8 @@ func (e *Engine) checkNotMoved(st *State, ch VStream, where string) {
 
 func (e *Engine) recv(st *State, ch VStream, where string) (Value, *Term) {
 	e.checkNotMoved(st, ch, where)
+	st.readSet[ch.ID.String()] = true
+	e.idTerms[ch.ID.String()] = ch.ID
 	c := e.consumed(st, ch.ID)
 	ok := mkCmp("<", c, e.slen(ch.ID))
 	got := e.sel(ch, c)
@@ -895,6 +899,7 @@ func (e *Engine) evalComposite(cl *ast.CompositeLit, st *State) Value {
 	case *types.Struct:
 		ref := e.fresh("obj_"+typeShort(t), SRef)
 		e.localRefs[ref.String()] = true
+		e.dynType[ref.String()] = types.NewPointer(t)
 		base := VTerm{T: ref, Typ: t}
 		given := map[string]Value{}
 		for i, el := range cl.Elts {
